@@ -632,6 +632,10 @@ func vrRun(seed int64, growth bool, ow, iw *bufio.Writer) (ok bool) {
 			}
 			return hc == nil || hc.hups > 0
 		})
+		// the array grows at the top of the loop's NEXT iteration (after the handler of the full batch returned)
+		for dl := time.Now().Add(3 * time.Second); p.size != 256 && time.Now().Before(dl); {
+			time.Sleep(200 * time.Microsecond)
+		}
 		v.mu.Lock()
 		if p.size != 256 {
 			v.fail(fmt.Sprintf("growth: event array size %d after a full batch, want 256 (batches n/size: %s)", p.size, strings.Join(v.sizes, " ")))
